@@ -34,6 +34,10 @@ type SpecEnv struct {
 	inOld     bool
 	pkg       *types.Package
 	depth     int
+	// skolemisation of positive top-level universal quantifiers
+	skolemize bool              // replace them by fresh constants (goal side)
+	skolems   map[string]SVal   // constants chosen / to instantiate with (hypothesis side)
+	positive  bool              // currently at a positive top-level position
 }
 
 func (ex *Exec) specEnv(fr *Frame, st, old *State) *SpecEnv {
@@ -63,6 +67,25 @@ func (env *SpecEnv) evalBool(e Expr) Term {
 		return env.ex.cx.fresh("specerr", SBool)
 	}
 	return sc.T
+}
+
+// evalGoalSkolem evaluates a goal, replacing the universal quantifiers at
+// positive top-level positions by fresh constants; it returns the constants.
+func (env *SpecEnv) evalGoalSkolem(e Expr) (Term, map[string]SVal) {
+	env.skolemize, env.positive, env.skolems = true, true, map[string]SVal{}
+	t := env.evalBool(e)
+	sk := env.skolems
+	env.skolemize, env.positive, env.skolems = false, false, nil
+	return t, sk
+}
+
+// evalInstance evaluates a hypothesis with its positive top-level universal
+// quantifiers instantiated at the given constants (matched by variable name).
+func (env *SpecEnv) evalInstance(e Expr, sk map[string]SVal) Term {
+	env.skolemize, env.positive, env.skolems = false, true, sk
+	t := env.evalBool(e)
+	env.positive, env.skolems = false, nil
+	return t
 }
 
 func (env *SpecEnv) evalInt(e Expr) Term {
@@ -252,7 +275,10 @@ func (env *SpecEnv) findLocal(name string) *ssa.Alloc {
 
 func (env *SpecEnv) unary(x *EUn) SVal {
 	ex := env.ex
+	pos := env.positive
+	env.positive = false
 	v := env.eval(x.X)
+	env.positive = pos
 	switch x.Op {
 	case "!":
 		sc, ok := v.V.(Sc)
@@ -359,16 +385,28 @@ func unsignedSV(v SVal) bool { return v.T != nil && isInteger(v.T) && isUnsigned
 
 func (env *SpecEnv) binary(x *EBin) SVal {
 	ex := env.ex
+	pos := env.positive
 	switch x.Op {
 	case "&&":
 		return env.boolVal(and(env.evalBool(x.L), env.evalBool(x.R)))
 	case "||":
-		return env.boolVal(or(env.evalBool(x.L), env.evalBool(x.R)))
+		env.positive = false
+		r := env.boolVal(or(env.evalBool(x.L), env.evalBool(x.R)))
+		env.positive = pos
+		return r
 	case "==>":
-		return env.boolVal(implies(env.evalBool(x.L), env.evalBool(x.R)))
+		env.positive = false
+		l := env.evalBool(x.L)
+		env.positive = pos
+		return env.boolVal(implies(l, env.evalBool(x.R)))
 	case "<==>":
-		return env.boolVal(eq(env.evalBool(x.L), env.evalBool(x.R)))
+		env.positive = false
+		r := env.boolVal(eq(env.evalBool(x.L), env.evalBool(x.R)))
+		env.positive = pos
+		return r
 	}
+	env.positive = false
+	defer func() { env.positive = pos }()
 	a, b := env.eval(x.L), env.eval(x.R)
 	if a.Lit != nil && b.Lit != nil {
 		r := new(big.Int)
@@ -667,6 +705,55 @@ func (env *SpecEnv) sliceExpr(x *ESlice) SVal {
 
 func (env *SpecEnv) quant(x *EQuant) SVal {
 	ex := env.ex
+	if x.All && env.positive && (env.skolemize || env.skolems != nil) {
+		// positive universal quantifier: constants instead of binders
+		savedV := map[string]*SVal{}
+		ok := true
+		for i, n := range x.Vars {
+			if old, has := env.vars[n]; has {
+				o := old
+				savedV[n] = &o
+			} else {
+				savedV[n] = nil
+			}
+			if env.skolemize {
+				srt := ex.cx.intS()
+				var typ types.Type = types.Typ[types.Int]
+				if x.Types[i] != "int" {
+					ok = false
+				}
+				c := ex.cx.fresh("sk_"+n, srt)
+				v := SVal{V: Sc{c}, T: typ}
+				env.skolems[n] = v
+				env.vars[n] = v
+			} else if v, has := env.skolems[n]; has {
+				env.vars[n] = v
+			} else {
+				ok = false
+			}
+		}
+		if ok {
+			body := env.evalBool(x.Body)
+			for n, o := range savedV {
+				if o == nil {
+					delete(env.vars, n)
+				} else {
+					env.vars[n] = *o
+				}
+			}
+			return env.boolVal(body)
+		}
+		for n, o := range savedV {
+			if o == nil {
+				delete(env.vars, n)
+			} else {
+				env.vars[n] = *o
+			}
+		}
+	}
+	pos := env.positive
+	env.positive = false
+	defer func() { env.positive = pos }()
 	saved := map[string]*SVal{}
 	var binders []string
 	for i, n := range x.Vars {
@@ -985,6 +1072,11 @@ func (ex *Exec) declSum() {
 func (env *SpecEnv) havocLvalue(post *State, m Expr) {
 	ex := env.ex
 	switch x := m.(type) {
+	case *EStr:
+		// a whole heap, by name
+		if srt, ok := ex.cx.heapSorts[x.Val]; ok {
+			post.heaps[x.Val] = ex.freshHeap("hv_", x.Val, srt)
+		}
 	case *ESel:
 		base := env.eval(x.X)
 		ref, ok := env.objRef(base)
@@ -1219,6 +1311,19 @@ func (ex *Exec) heapsOfLvalue(fc *FuncContract, m Expr) map[string]string {
 		}
 	}
 	switch x := m.(type) {
+	case *EStr:
+		srt, ok := ex.cx.heapSorts[x.Val]
+		if !ok {
+			switch {
+			case strings.HasPrefix(x.Val, "A!"):
+				es := strings.TrimPrefix(x.Val, "A!")
+				srt = ex.contentSort(es)
+			default:
+				return nil
+			}
+		}
+		out[x.Val] = srt
+		return out
 	case *ESel:
 		if g, ok := ex.cs.Ghosts[x.Name]; ok {
 			if bt := typeOf(m); bt == nil {
@@ -1300,9 +1405,12 @@ func (ex *Exec) heapsOfLvalue(fc *FuncContract, m Expr) map[string]string {
 	case *EUn:
 		if x.Op == "*" {
 			if t := typeOf(m); t != nil {
-				addType(t)
-				// could also be a field address: conservative
-				return nil
+				if srt, ok := ex.cx.sortOf(t); ok {
+					out[cellHeapName(srt)] = arrSort(SRef, srt)
+					// the pointer may designate a field: every field heap of that sort
+					out["*ptr:"+srt] = srt
+					return out
+				}
 			}
 		}
 	}
